@@ -64,10 +64,11 @@ theorem is_odd_spec (bits a : ℕ) (h : 0 < bits) :
 /-- `MulAdd::mul_add(x, a, b)` (two wrapping operators) is `x·a + b mod 2^bits`. -/
 theorem mul_add_spec (bits x a b : ℕ) : mulAdd bits x a b = (x * a + b) % 2 ^ bits := mulAdd_eq bits x a b
 
-/-- `PrimInt::pow(a, e: u32)`: `a^e mod 2^bits` when the exponent fits the width; the conversion
-    `Uint::from(e)` panics otherwise (both sides of the in-process comparison panic there). -/
-theorem pow_u32_spec (bits a e : ℕ) :
-    powU32 bits a e = if e < 2 ^ bits then some (a ^ e % 2 ^ bits) else none := powU32_eq bits a e
+/-- `PrimInt::pow(a, e: u32)` is `a^e mod 2^bits` for EVERY `u32` exponent, also one that is not representable
+    at the width (`bits < 32`), where the inherent `pow` cannot even be called (repaired code; the facade
+    used to panic there in `Uint::from(e)`). -/
+theorem pow_u32_spec (bits a e : ℕ) (ha : a < 2 ^ bits) : powU32 bits a e = a ^ e % 2 ^ bits :=
+  powU32_eq bits a e ha
 
 /-- trait default `prev_multiple_of`: the greatest multiple of `b` not above `a`; panics iff `b = 0`. -/
 theorem prev_multiple_of_spec (bits a b : ℕ) (ha : a < 2 ^ bits) :
